@@ -15,8 +15,8 @@ import re
 
 from vf import core
 
-THEOREMS = ["barrier_round_safety_refuted", "barrier_single_round", "barrier_reuse_count_le_2",
-            "barrier_one_serial_per_round", "barrier_single_consumer_refuted"]
+THEOREMS = ["barrier_round_safety_refuted", "barrier_single_consumer_refuted", "barrier_one_serial_per_round",
+            "barrier_no_return_before_count", "barrier_single_round_safety", "barrier_reuse_count_1"]
 WAIT = 1
 T1_SOURCES = ["src/fiber_manager.c", "src/fiber.c", "src/fiber_barrier.c", "src/fiber_mutex.c",
               "src/fiber_spinlock.c", "src/hazard_pointer.c"]
